@@ -3,6 +3,7 @@
 import SafeHtml.Oracle.C01
 import SafeHtml.Oracle.C04
 import SafeHtml.Spec.UrlComponents
+import SafeHtml.Spec.Interchange
 namespace SafeHtml.Oracle.C03
 open SafeHtml SafeHtml.Spec SafeHtml.Spec.HtmlTok SafeHtml.Spec.Policy SafeHtml.Reviewed.Policy
 
@@ -50,7 +51,10 @@ def c03 (form : String) (e a pre : Bytes) (tag : String) (contents : Bytes)
           | some (.known .URL) | some (.known .TrustedResourceURL) | some (.known .TrustedResourceURLOrURL) => true
           | _ => false
         let intact := if isUrlCtx then SafeHtml.Spec.UrlComp.pctDecode seen == SafeHtml.Spec.UrlComp.pctDecode contents
-          else Oracle.C01.contains contents seen
+          -- inside an attribute the value passes the HTML escaper, which replaces NUL, other control characters,
+          -- noncharacters and invalid UTF-8 by U+FFFD (C10): intact means intact up to that coercion
+          else Oracle.C01.contains contents seen ||
+            (form != "content" && form != "after" && Oracle.C01.contains (SafeHtml.Spec.refCoerce contents) seen)
         if (pre.isEmpty || form == "after") && !intact then "fail:typed-value-not-emitted-intact-in-its-own-context"
         else "pass"
       else
